@@ -143,6 +143,12 @@ def _call(ex, ev, model):
             frame = _frame(model.mesh_for(ev["slot"])["id"], model, ev["state"])
             if ev.get("subset") == "elset":
                 frame = frame[frame.index.get_level_values("element_id").isin(model.mesh_for(ev["slot"])["elset"])]
+            if ev.get("rows") == "blocks-reversed":
+                eids = frame.index.get_level_values("element_id").to_numpy()
+                first = {}
+                for i, e in enumerate(eids):
+                    first.setdefault(e, i)
+                frame = frame.iloc[sorted(range(len(eids)), key=lambda i: (-first[eids[i]], i))]
             ex.add_variable(ev["state"], ev["slot"], ev["name"], frame, **kw)
     except Exception as e:          # the exporter's failure is an outcome, not a crash of the check
         return e
@@ -301,6 +307,35 @@ def _import(fn, slot, state=None, variables=(), node_set=None, element_set=None,
             imp._file.close()
 
 
+def _import_after_abandoned(fn, slot_a, slot_b, how):
+    """One importer object: a chain on geometry A that never reaches to_frame() (how = 'make_mesh': just started;
+    'failed-join': join_variable of a variable that does not exist raised), then the plain chain on geometry B.
+    -> (table, None) or (None, (stage, exception))"""
+    import pylife.vmap as vmap
+    imp = None
+    stage = "open"
+    try:
+        imp = vmap.VMAPImport(fn)
+        stage = "abandoned-chain"
+        o = imp.make_mesh(slot_a)
+        if how == "failed-join":
+            try:
+                o.join_coordinates().join_variable("NO_SUCH_VARIABLE", column_names=["v"])
+            except Exception:               # expected to raise; what it leaves behind is the point  # noqa: BLE001
+                pass
+        stage = "make_mesh"
+        o = imp.make_mesh(slot_b)
+        stage = "join_coordinates"
+        o = o.join_coordinates()
+        stage = "to_frame"
+        return _table(o.to_frame()), None
+    except Exception as e:                  # noqa: BLE001
+        return None, (stage, e)
+    finally:
+        if imp is not None:
+            imp._file.close()
+
+
 def _same(a, b):
     return a == b or (isinstance(a, float) and isinstance(b, float) and math.isnan(a) and math.isnan(b))
 
@@ -363,6 +398,7 @@ def _check_state(fn, model):
     free counters)"""
     viol, chains, counters = [], 0, {}
     states = sorted({st for (st, _) in model.vars})
+    fresh = {}
     for slot in sorted(model.geom):
         m = R.MESHES[model.geom[slot]]
         # plain mesh with coordinates, two independent importer objects
@@ -373,6 +409,7 @@ def _check_state(fn, model):
                                                                 "error": "%s: %s" % (type(err[1]).__name__, err[1])}))
             continue
         viol += _compare_mesh(tabs[0], m, [], slot)
+        fresh[slot] = tabs[0]
         tabs2, _, err2 = _import(fn, slot)
         chains += 1
         if err2 or not _tables_equal(tabs2[0], tabs[0]):
@@ -431,6 +468,20 @@ def _check_state(fn, model):
             if tabs[0]["rows"] != members:
                 viol.append(("C20/set-filter/%s" % kind, {"geometry": slot, "mesh": m["id"], "set": name, "ids": ids,
                                                           "got": tabs[0]["rows"], "expected": members}))
+    # one importer object used for several geometries, an unfinished chain on another geometry in front
+    for a in sorted(fresh):
+        for b in sorted(fresh):
+            if a == b:
+                continue
+            for how in ("make_mesh", "failed-join"):
+                tab, err = _import_after_abandoned(fn, a, b, how)
+                chains += 2
+                if err:
+                    viol.append(("C20/import-after-unfinished-chain-on-other-geometry/%s-raises-%s" % (err[0], type(err[1]).__name__),
+                                 {"unfinished_on": a, "read": b, "how": how, "error": "%s: %s" % (type(err[1]).__name__, err[1])}))
+                elif not _tables_equal(tab, fresh[b]):
+                    viol.append(("C20/import-after-unfinished-chain-on-other-geometry",
+                                 {"unfinished_on": a, "read": b, "how": how, "got_rows": tab["rows"], "fresh_importer_rows": fresh[b]["rows"]}))
     return viol, chains, counters
 
 
